@@ -505,3 +505,46 @@ Fixpoint wf_history_from (seen : list event) (evs : list event) : Prop :=
     end /\ wf_history_from (seen ++ [e]) r
   end.
 Definition wf_history (evs : list event) : Prop := wf_history_from [] evs.
+
+(* ------------------------------------------------------------------ the rate limit and message boundaries *)
+
+(* statsReporter starts every round with time.Sleep(1 s), then waits (for a command or StatsEvery)
+   and only then builds and broadcasts a report: the times (ms) at which reports are queued for a
+   viewer, given the waits of the successive rounds *)
+Definition rate_limit_ms : Z := 1000.
+
+Fixpoint emit_times (now : Z) (waits : list Z) : list Z :=
+  match waits with
+  | [] => []
+  | w :: r => let t := (now + rate_limit_ms + Z.max 0 w)%Z in t :: emit_times t r
+  end.
+
+(* the viewer's writePump: it takes the head of the queue [lat] ms after it was queued and appends,
+   WITHOUT a delimiter, everything else that is queued at that moment to the same websocket message.
+   Result: the reports that travel in each websocket message *)
+Fixpoint take_until (p : Z) (ts : list Z) : list Z * list Z :=
+  match ts with
+  | t :: r => if (t <=? p)%Z then let '(a, b) := take_until p r in (t :: a, b) else ([], ts)
+  | [] => ([], [])
+  end.
+
+Fixpoint pump (fuel : nat) (ts : list Z) (lats : list Z) : list (list Z) :=
+  match fuel with
+  | O => []
+  | S k =>
+    match ts with
+    | [] => []
+    | t :: r =>
+      let lat := hd 0%Z lats in
+      let '(more, rest) := take_until (t + lat)%Z r in
+      (t :: more) :: pump k rest (tl lats)
+    end
+  end.
+
+Definition messages (ts lats : list Z) : list (list Z) := pump (length ts) ts lats.
+
+Fixpoint gaps_geb (g : Z) (ts : list Z) : bool :=
+  match ts with
+  | a :: ((b :: _) as r) => (g <=? b - a)%Z && gaps_geb g r
+  | _ => true
+  end.
